@@ -60,6 +60,9 @@ type SessionOpts struct {
 	SerialOnly  bool
 	DupRunIDs   bool
 	Latency     bool
+	// BlankStep: some calls name no step at all; the SDK's server answers those with a step-fatal error that
+	// carries no run ID, which the client hands to every call in flight
+	BlankStep bool
 }
 
 func drawPipe(s Src, name string, latency bool) rt.PipeConfig {
@@ -135,6 +138,10 @@ func PlanSession(s Src, o SessionOpts) *SessionPlan {
 			if o.UnknownStep && chance(s, "w.unknown", 1, 12) {
 				call.Step = "no-such-step"
 				p.Features["unknown_step"] = true
+			}
+			if o.BlankStep && chance(s, "w.blankstep", 1, 12) {
+				call.Step = ""
+				p.Features["blank_step"] = true
 			}
 			switch {
 			case chance(s, "w.alt", 1, 5):
